@@ -46,6 +46,7 @@ def ids(idx):
 def render(it, mk, fpf, static, dynamic, pretty=0, multiple=0, mode=0):
     """-> {file name: text} of the main file, the split files and the header"""
     it.files = []
+    it.strict_bounds = True
 
     def setup():
         opts = {'outputPath': 'mod.c', 'threadCount': 1, 'functionsPerFile': fpf, 'pretty': pretty, 'debug': 0,
@@ -71,4 +72,5 @@ def render(it, mk, fpf, static, dynamic, pretty=0, multiple=0, mode=0):
     for n, m, t in it.files:
         files[n] = t.render()
     it.files = None
+    it.strict_bounds = False
     return files
